@@ -9,6 +9,8 @@ import (
 	"strings"
 
 	"github.com/antonmedv/expr"
+	"github.com/antonmedv/expr/ast"
+	"github.com/antonmedv/expr/parser"
 	"github.com/antonmedv/expr/vm"
 )
 
@@ -235,6 +237,24 @@ func runC15() {
 		t := []gtype{tBool, tInt, tNum, tStr, tArrInt, tArrAny, tAny}[rng.Intn(7)]
 		srcs = append(srcs, g.expr(t, 2+rng.Intn(3)))
 	}
+	// arithmetic in argument position (the checker retypes integer literals below + - * / and unary +/- of an
+	// argument to the parameter type): literal-only and MIXED trees, float / int / interface{} parameters
+	for _, fn := range []string{"Half", "Inc", "Id", "Twice"} {
+		leaves := []string{"1", "2", "7", "I", "F64", "I8", "U8", "9007199254740993"}
+		for _, a := range leaves {
+			for _, b := range leaves {
+				for _, op := range []string{"+", "-", "*", "/"} {
+					if rng.Intn(3) != 0 && *tier != "thorough" {
+						continue
+					}
+					srcs = append(srcs, fmt.Sprintf("%s(%s %s %s)", fn, a, op, b))
+					c := leaves[rng.Intn(len(leaves))]
+					op2 := []string{"+", "-", "*", "/"}[rng.Intn(4)]
+					srcs = append(srcs, fmt.Sprintf("%s(%s %s %s %s %s)", fn, a, op, b, op2, c), fmt.Sprintf("%s(-(%s %s %s) %s %s)", fn, a, op, b, op2, c))
+				}
+			}
+		}
+	}
 	compileRun := func(src string, env interface{}, ops ...expr.Option) (interface{}, error, bool) {
 		p, err := expr.Compile(src, ops...)
 		if err != nil {
@@ -295,7 +315,11 @@ func runC15() {
 			}
 			for i := 1; i < len(succ); i++ {
 				if cqValue(normSeq(succ[i].out)) != cqValue(normSeq(succ[0].out)) || succ[i].log != succ[0].log {
-					rep.fail(Failure{Key: "C15-modes-disagree", What: "two compile / environment variants that both succeed return different results",
+					key := "C15-modes-disagree"
+					if c15MixedRetypedArg(src) {
+						key = "C15-arg-retype-mixed"
+					}
+					rep.fail(Failure{Key: key, What: "two compile / environment variants that both succeed return different results",
 						Input: map[string]interface{}{"src": src, "env": ei, "a": succ[0].name, "b": succ[i].name},
 						Want:  clip(fmt.Sprintf("%#v", succ[0].out)), Got: clip(fmt.Sprintf("%#v", succ[i].out))})
 					break
@@ -350,3 +374,58 @@ func normSeq(v interface{}) interface{} {
 	}
 	return v
 }
+
+// c15MixedRetypedArg: some call argument is an arithmetic tree (unary + -, binary + - * /) that contains an
+// integer literal AND a leaf that is not an integer literal - the shape on which checkFunc/setTypeForIntegers
+// retypes the literals to the parameter type while the other leaves keep their own type (finding C15-arg-retype-mixed).
+func c15MixedRetypedArg(src string) bool {
+	tree, err := parser.Parse(src)
+	if err != nil {
+		return false
+	}
+	found := false
+	var arith func(n ast.Node, lit, other *bool) bool
+	arith = func(n ast.Node, lit, other *bool) bool {
+		switch x := n.(type) {
+		case *ast.IntegerNode:
+			*lit = true
+			return true
+		case *ast.UnaryNode:
+			if x.Operator == "+" || x.Operator == "-" {
+				arith(x.Node, lit, other)
+				return true
+			}
+		case *ast.BinaryNode:
+			switch x.Operator {
+			case "+", "-", "*", "/":
+				arith(x.Left, lit, other)
+				arith(x.Right, lit, other)
+				return true
+			}
+		}
+		*other = true
+		return false
+	}
+	check := func(args []ast.Node) {
+		for _, a := range args {
+			lit, other := false, false
+			if arith(a, &lit, &other) && lit && other {
+				found = true
+			}
+		}
+	}
+	ast.Walk(&tree.Node, visitFn(func(n *ast.Node) {
+		switch x := (*n).(type) {
+		case *ast.FunctionNode:
+			check(x.Arguments)
+		case *ast.MethodNode:
+			check(x.Arguments)
+		}
+	}))
+	return found
+}
+
+type visitFn func(n *ast.Node)
+
+func (f visitFn) Enter(n *ast.Node) {}
+func (f visitFn) Exit(n *ast.Node)  { f(n) }
